@@ -127,6 +127,17 @@ def run_fit(case, shuffle_seed=None):
   kw = dict(case['names'])
   kw.update({'group_control': case['labels'][0], 'group_treatment': case['labels'][1]})
   d = tbrdiagnostics.TBRDiagnostics()
+  if case.get('earlier_panel') is not None:
+    # the diagnostics object analysed another panel first, and its results were read
+    try:
+      c0 = case['earlier_panel']
+      df0, nm0 = frame(c0)
+      kw0 = dict(c0['names'])
+      kw0.update({'group_control': c0['labels'][0], 'group_treatment': c0['labels'][1]})
+      d.fit(df0, target=nm0['key_response'], **kw0)
+      d.get_test_results(); d.get_data(); d.get_analysis_data()
+    except Exception:
+      pass
   try:
     d.fit(df, target=nm['key_response'], **kw)
   except Exception as e:
@@ -228,8 +239,15 @@ def run(tier):
   rng = random.Random(ck.seed * 47 + 19)
   n = common.sz(tier, 100, 1500)
   cases = degenerate_cases() + both_detectors_cases(common.sz(tier, 8, 80)) + [gen_case(rng, i) for i in range(n)]
+  # every third case: the diagnostics object analysed another panel (with noisy geos / outlier dates of its own) first
+  r4 = random.Random(ck.seed * 53 + 7)
+  donors = both_detectors_cases(4) + [gen_case(r4, 10 ** 6 + i) for i in range(6)]
+  for i, c in enumerate(cases):
+    if i % 3 == 1:
+      c['earlier_panel'] = donors[i % len(donors)]
   res = common.pmap(_one, cases, chunksize=2)
-  dist = {'with_noisy_geos': 0, 'with_outlier_dates': 0, 'fewer_than_4_geos': 0, 'custom_names': 0, 'rows_total': 0}
+  dist = {'with_noisy_geos': 0, 'with_outlier_dates': 0, 'fewer_than_4_geos': 0, 'custom_names': 0, 'rows_total': 0,
+          'object_analysed_another_panel_first': sum(1 for c in cases if c.get('earlier_panel') is not None)}
   terms = []
   for c, (r, r2) in zip(cases, res):
     if r['outcome'].startswith('harness error'):
